@@ -34,7 +34,7 @@ META = dict(
                 "silent (single-cell axis without 'cell', default units/labels/tolerance when the optional pieces are missing, the "
                 "field unit, vdim_mapping) the table follows the library and deviations are reported as notes, not verdicts. "
                 "Trusted: TLC, tlaval parser, xarray."),
-    technique="TLA+ decision table for from_xarray over all attribute subsets (C17.tla) + TLC exhaustive; states replayed into the library; library traces validated by TLC (C17Trace.tla)",
+    technique="TLA+ decision table for from_xarray over all attribute subsets (C17.tla) + TLC exhaustive; states replayed into the library; library traces validated by TLC (C17Trace.tla); Apalache on the unbounded 1-d core (C17Core.tla: centres as coordinates, reconstruction of region and cell)",
     design_ref="DESIGN.md section 7 C17",
 )
 
@@ -422,6 +422,9 @@ def run_traces(ctx, df, ntraces, embs):
 
 def run(ctx):
     df = core.import_library()
+    # the integer core (spec/C17Core.tla): Apalache discharges the coordinate / reconstruction arithmetic for meshes of any size
+    from .. import apalache
+    apalache.run_stage(ctx, module="C17Core.tla", obligations=apalache.C17_OBLIGATIONS, claim=apalache.C17_CLAIM)
     # a mesh a million quanta (250 000 cells) away from the origin: "evenly spaced" is a statement about the spacings, not about
     # the size of the coordinates (seeded change C17-23 tested the spacing relative to the coordinate magnitude)
     embs = embed.for_tier(ctx.tier, ctx.seed) + [FAR]
